@@ -420,6 +420,30 @@ func initStubs() {
 	stubTable[zzp+"FloorUF"] = func(e *Exec, st *State, fn *Func, args []Value, site string) []Outcome {
 		return stubTable["math.Floor"](e, st, fn, args, site)
 	}
+	concStr := func(v Value, what string) string {
+		t, ok := v.(*Term)
+		if !ok || t.Op != "strconst" {
+			fail("%s: argument must be a constant string", what)
+		}
+		return t.S
+	}
+	concInt := func(v Value, what string) int {
+		t, ok := v.(*Term)
+		if !ok || !t.IsConst() {
+			fail("%s: argument must be a constant integer", what)
+		}
+		return int(t.SVal())
+	}
+	stubTable[zzp+"TmplInt"] = func(e *Exec, st *State, fn *Func, args []Value, site string) []Outcome {
+		n := tmplInt(concStr(args[0], "TmplInt"), concStr(args[1], "TmplInt"), concInt(args[2], "TmplInt"))
+		if mathInts {
+			return ret(st, IntConst(int64(n)))
+		}
+		return ret(st, BVConst(uint64(n), 64))
+	}
+	stubTable[zzp+"TmplStr"] = func(e *Exec, st *State, fn *Func, args []Value, site string) []Outcome {
+		return ret(st, StrConst(tmplStr(concStr(args[0], "TmplStr"), concStr(args[1], "TmplStr"), concInt(args[2], "TmplStr"), concInt(args[3], "TmplStr"))))
+	}
 	stubTable[zzp+"FieldLen"] = func(e *Exec, st *State, fn *Func, args []Value, site string) []Outcome {
 		iv := args[0].(Iface)
 		pt, ok := iv.T.(*types.Pointer)
